@@ -60,13 +60,13 @@ func (r *ReduceMax) Apply(inputs []tensor.Tensor) ([]tensor.Tensor, error) {
 		axes[i] = ops.ConvertNegativeAxis(axis, len(input.Shape()))
 	}
 
-	out, err := input.Max(axes...)
+	out, err := ops.ReduceAxes(input, axes, (*tensor.Dense).Max)
 	if err != nil {
 		return nil, err
 	}
 
 	if r.keepDims {
-		newShape := input.Shape()
+		newShape := inputs[0].Shape().Clone()
 		for _, axes := range axes {
 			newShape[axes] = 1
 		}
